@@ -1720,8 +1720,14 @@ class HTMLDependency(MetadataNode):
 
         return Tag(
             "script",
-            # "</script>" in a script tag must be escaped
-            json.dumps(res, indent=indent).replace("</script>", "<\\/script>"),
+            # "</script" in a script tag must be escaped. An end tag is recognized in any
+            # letter case and also when followed by whitespace or "/" instead of ">".
+            re.sub(
+                "</(script)",
+                r"<\\/\1",
+                json.dumps(res, indent=indent),
+                flags=re.IGNORECASE,
+            ),
             type="application/json",
             data_html_dependency=True,
         )
